@@ -125,8 +125,8 @@ type FSCase struct {
 	Fault  string   `json:"fault"` // none | throw | host | irq | limit
 	K      int      `json:"k"`     // fault at the k-th trap invocation / limit value
 	// sweep form: when Path is "" the case sweeps paths [From,To)
-	From int `json:"from,omitempty"`
-	To   int `json:"to,omitempty"`
+	From  int  `json:"from,omitempty"`
+	To    int  `json:"to,omitempty"`
 	Pairs bool `json:"pairs,omitempty"`
 	// recursion form: Prog is a self-recursive program run under limit K
 	Prog string `json:"prog,omitempty"`
@@ -294,7 +294,16 @@ func valueAccessors(vm *otto.Otto, v otto.Value) (bad string) {
 	try("Export", func() { v.Export() })
 	try("Class", func() { _ = v.Class() })
 	try("IsNaN/Is*", func() {
-		v.IsNaN(); v.IsString(); v.IsNumber(); v.IsObject(); v.IsFunction(); v.IsPrimitive(); v.IsDefined(); v.IsBoolean(); v.IsNull(); v.IsUndefined()
+		v.IsNaN()
+		v.IsString()
+		v.IsNumber()
+		v.IsObject()
+		v.IsFunction()
+		v.IsPrimitive()
+		v.IsDefined()
+		v.IsBoolean()
+		v.IsNull()
+		v.IsUndefined()
 	})
 	try("Call", func() { v.Call(otto.NullValue(), 1) })
 	if o := v.Object(); o != nil {
@@ -645,6 +654,9 @@ func (e fsEngine) Exec(ci interface{}, st *Stats) (*Violation, interface{}, bool
 	if c.Fault == "cycleprobe" {
 		return execCycleProbe(c, st)
 	}
+	if c.Fault == "nestprobe" {
+		return execNestProbe(c, st)
+	}
 	if c.Fault == "history" {
 		return execHistory(c, st)
 	}
@@ -892,7 +904,12 @@ func execAPIState(c *FSCase, st *Stats) (*Violation, interface{}, bool) {
 		vm.ToValue([]string{"x"})
 		vm.Run("zz.a[0]+zf(1)")
 	})
-	try("Call", func() { vm.Call("f", nil, 1); vm.Call("new f", nil); vm.Call("String", nil, 1); vm.Call("tv.valueOf", nil) })
+	try("Call", func() {
+		vm.Call("f", nil, 1)
+		vm.Call("new f", nil)
+		vm.Call("String", nil, 1)
+		vm.Call("tv.valueOf", nil)
+	})
 	try("Object", func() {
 		if o, err := vm.Object("({a:1,get b(){throw 1}})"); err == nil && o != nil {
 			o.Keys()
@@ -1131,6 +1148,18 @@ func (fsEngine) Enumerate(tier string) []interface{} {
 	}
 	for _, p := range cycleProgs {
 		out = append(out, &FSCase{Engine: "faultsweep", Fault: "cycleprobe", Prog: p})
+	}
+	// nesting that every implementation must survive (all kinds), and nesting that
+	// is known to kill the process (see known_findings.json): the recursive-descent
+	// parser, the compiler pass and the tree evaluator recurse once per level and
+	// none of them counts towards SetStackDepthLimit
+	for _, k := range nestKinds {
+		out = append(out, &FSCase{Engine: "faultsweep", Fault: "nestprobe", Recv: k, K: 5000})
+	}
+	for i, k := range nestDeadly {
+		if tier == "thorough" || i == seed%len(nestDeadly) {
+			out = append(out, &FSCase{Engine: "faultsweep", Fault: "nestprobe", Recv: k, K: 4000000})
+		}
 	}
 	for i := range strTemplates {
 		out = append(out, &FSCase{Engine: "faultsweep", Fault: "strsweep", From: i, Pairs: tier == "thorough"})
